@@ -1,2 +1,16 @@
 use slotted_egraphs::*;
-fn main() { let s = Slot::fresh(); println!("{s}"); }
+use verif_harness::langs::T;
+fn main() {
+    let mut eg: EGraph<T> = EGraph::default();
+    let a = eg.add_syn_expr(RecExpr::parse("(f3 $1 $2 $3)").unwrap());
+    let b = eg.add_syn_expr(RecExpr::parse("(f3 $2 $3 $1)").unwrap());
+    eg.union_justified(&a, &b, Some("j".into()));
+    eg.dump();
+    #[cfg(feature = "explanations")]
+    {
+        let p = eg.explain_equivalence(RecExpr::parse("(f3 $1 $2 $3)").unwrap(), RecExpr::parse("(f3 $2 $3 $1)").unwrap());
+        println!("{}", p.to_string(&eg));
+        let p = eg.explain_equivalence(RecExpr::parse("(f3 $1 $2 $3)").unwrap(), RecExpr::parse("(f3 $3 $1 $2)").unwrap());
+        println!("{}", p.to_string(&eg));
+    }
+}
